@@ -6,6 +6,7 @@ package main
 import (
 	"fmt"
 	"go/types"
+	"sort"
 	"strings"
 )
 
@@ -24,6 +25,7 @@ func init() {
 	natives["slices.Sorted"] = natSlicesSorted
 	natives["slices.Sort"] = natSlicesSort
 	natives["slices.SortFunc"] = natSlicesSortFunc
+	natives["(*golang.org/x/sync/singleflight.Group).Do"] = natSingleDo
 	natives["log.Printf"] = natNoop
 	natives["log.Print"] = natNoop
 	natives["log.Println"] = natNoop
@@ -342,4 +344,83 @@ type seqInfo struct {
 type boxInfo struct {
 	val *Val
 	ty  types.Type
+}
+
+// A-sf: singleflight.Group.Do either runs fn once in the calling goroutine (the
+// caller "won") or returns the result of another caller's run of the same
+// function value. In the second case the shared state may have been changed by
+// that other run: everything fn can write (except the caller's own captured
+// local cells) is havocked, and the clauses of fn's contract labelled
+// "shared ..." are assumed of the returned values.
+func natSingleDo(c *callCtx) []cont {
+	ex := c.ex
+	ex.note("A-sf: singleflight.Do runs fn at most once per key at a time, in the calling goroutine (winner) or returns another caller's result of the same function (loser)")
+	fnv := c.args[2]
+	if fnv.Clo == nil {
+		return ex.unknownCall(c)
+	}
+	clo := fnv.Clo
+	anyT := c.sig.Results().At(0).Type()
+	errT := c.sig.Results().At(1).Type()
+	boolT := c.sig.Results().At(2).Type()
+	// winner
+	ws := c.st.clone()
+	ws.path += "W"
+	wctx := &callCtx{ex: ex, st: ws, cc: c.cc, site: c.site, sig: clo.fn.Signature}
+	var outs []cont
+	for _, r := range ex.callFunc(ws, clo.fn, nil, clo.binds, c.site, wctx) {
+		if r.panicked {
+			outs = append(outs, r)
+			continue
+		}
+		fs := r.val.Fs
+		r.st.notes = append(r.st.notes, "sf:winner")
+		outs = append(outs, cont{st: r.st, val: &Val{K: VTuple, Fs: []*Val{fs[0], fs[1], freshVal("shared", boolT)}, Ty: c.sig.Results()}})
+	}
+	// loser
+	ls := c.st
+	ls.path += "L"
+	if !ex.collect {
+		before := ls.clone()
+		ws := ex.eng.cachedWrites(clo.fn)
+		var names []string
+		for n := range ws {
+			if strings.HasPrefix(n, "F|") && !strings.Contains(strings.SplitN(n[2:], "|", 2)[0], ".") {
+				continue // a captured local cell of this caller, not shared state
+			}
+			names = append(names, n)
+		}
+		sort.Strings(names)
+		for _, n := range names {
+			arrSorts[n] = ws[n]
+			ex.havocArr(ls, n)
+		}
+		ex.bumpAlloc(ls)
+		v := freshVal("sfv", anyT)
+		e := freshVal("sferr", errT)
+		ex.assumeResultTyped(ls, v)
+		ex.assumeResultTyped(ls, e)
+		if fc := ex.eng.contractFor(clo.fn); fc != nil {
+			vars := map[string]*Val{}
+			for i, fv := range clo.fn.FreeVars {
+				if i < len(clo.binds) {
+					vars[fv.Name()] = ex.derefBind(ls, clo.binds[i], fv.Type())
+				}
+			}
+			if len(fc.Results) >= 2 {
+				vars[fc.Results[0]] = v
+				vars[fc.Results[1]] = e
+			}
+			for _, cl := range fc.Ensures {
+				if !strings.HasPrefix(cl.Label, "shared") {
+					continue
+				}
+				env := &Env{ex: ex, cur: ls, old: before, vars: vars, pkg: ex.pkgOfKey(fc, clo.fn)}
+				ls.assume(ex.evalWith(env, cl))
+			}
+		}
+		ls.notes = append(ls.notes, "sf:loser")
+		outs = append(outs, cont{st: ls, val: &Val{K: VTuple, Fs: []*Val{v, e, freshVal("shared", boolT)}, Ty: c.sig.Results()}})
+	}
+	return outs
 }
